@@ -193,7 +193,11 @@ def run_session(s):
             fixed[n] = mems_of(x)
 
     def sn(n):
-        return snap(n, store[n], heap, fixed.get(n))
+        x = store[n]
+        first = x[list(x.data_vars)[0]] if isinstance(x, xr.Dataset) else x
+        if isinstance(first.data, np.ndarray):      # (re)bound to a NumPy array: its buffer is that array
+            return snap(n, x, heap, None)
+        return snap(n, x, heap, fixed.get(n))
     order = []
     out = {"sid": s.get("sid", 0), "tag": s.get("tag", ""), "events": [], "job": s}
     for o in s.get("init") or []:
